@@ -199,6 +199,8 @@ cdef class KmerFinder:
                     continue
             elif stop == 0:  # stop == 0 means go to end of sequence.
                 stop = seq_length
+            elif stop > seq_length:  # Never search beyond the end of the sequence
+                stop = seq_length
             search_length = stop - start
             if search_length <= 0:
                 continue
